@@ -391,7 +391,10 @@ pub fn check_e2e_shape(pc: &PathCase, shape: u8, cc: &mut CaseCtx) -> CheckResul
         cc.class("unrepresentable");
         return Ok(());
     }
-    let cfg = ServerConfig { s3: pc.s3, fold: shape & 1 != 0, ..ServerConfig::default() };
+    // region and service are labels of the credential scope; they come from the dictionaries (a service called "s3" too)
+    // and must not influence the normal form
+    let pick = pc.path.len() + shape as usize;
+    let cfg = ServerConfig { s3: pc.s3, fold: shape & 1 != 0, region: REGIONS[pick % REGIONS.len()].to_string(), service: SERVICES[pick / 3 % SERVICES.len()].to_string(), ..ServerConfig::default() };
     let spec = SignSpec::basic(if shape & 4 != 0 { Carrier::Query } else { Carrier::Header }, "AKIDEXAMPLE", "secret", "20150830T123600Z");
     cc.class_if(shape & 3 == 3, "folded-form");
     cc.class_if(shape & 3 == 3 && pc.s3, "folded-form-in-s3-mode");
@@ -399,7 +402,7 @@ pub fn check_e2e_shape(pc: &PathCase, shape: u8, cc: &mut CaseCtx) -> CheckResul
     let req = match sign(&base, &cfg, &spec) {
         Ok(s) => s.req,
         // invalid path: nothing to sign; send it with a dummy signature, the path rule must fire first
-        Err(_) => crate::model::sign::attach(&base, &cfg, &spec, "AKIDEXAMPLE/20150830/us-east-1/service/aws4_request", &"0".repeat(64)),
+        Err(_) => crate::model::sign::attach(&base, &cfg, &spec, &format!("AKIDEXAMPLE/20150830/{}/{}/aws4_request", cfg.region, cfg.service), &"0".repeat(64)),
     };
     let prov = ProviderScript { keys: vec![KeyEntry { access_key: "AKIDEXAMPLE".into(), token: None, secret: "secret".into(), derive_as: None, principal: PrincipalSpec::Empty, session: vec![] }], ..ProviderScript::default() };
     let case = Case { req, cfg, prov };
